@@ -126,3 +126,11 @@ func init() {
 	propSpecs["C02"] = &PropSpec{ID: "C02", Roots: roots, InvariantMethods: true, Extra: scanPropertyTables,
 		Note: "structural validity, PARTIAL: (1) type and reserved flag bits - the first byte is a type invariant established by each constructor and preserved by every exported method (PUBLISH: type nibble; DUP/QoS/RETAIN free), and fill writes it at offset 0; (2) the remaining-length field is the minimal variable byte integer of the closed-form size of everything that follows (MQTT field tables; for PUBACK/PUBREC/PUBREL/PUBCOMP the reason code is present whenever properties follow); (3) property table conformance scan over the SSA of all encoders and property maps against MQTT v5.0 Table 2-4: identifier numbers by name, identifiers allowed for the packet, specified wire type, at most once; (4) byte-level contracts of every wire-type encoder (two/four byte big endian, length-prefixed strings, variable byte integers, identifier byte before each property value). NOT proved: the order of fields inside variable header and payload and that a specification-level reader reads back exactly the values set (needs the reference reader R, DESIGN 9a)"}
 }
+
+func init() {
+	roots := []string{"(*buffer).get", "(*bits).UnmarshalBinary", "(*Ident).UnmarshalBinary", "(*wbool).UnmarshalBinary", "(*wuint16).UnmarshalBinary", "(*wuint32).UnmarshalBinary",
+		"(*vbint).UnmarshalBinary", "(*bindata).UnmarshalBinary", "(*rawdata).UnmarshalBinary", "(*UserProp).UnmarshalBinary"}
+	roots = append(roots, methodsOf(packetTypes, "UnmarshalBinary")...)
+	propSpecs["C03"] = &PropSpec{ID: "C03", Roots: roots,
+		Note: "PARTIAL (decoder conformance step by step, not the end-to-end theorem)"}
+}
